@@ -82,6 +82,38 @@ impl Ctxt<'_> {
 
 // ---------------------------------------------------------------- FIR block
 
+/// `Fir::filter_n` / `filter_n_inplace` (the multi-output helpers): one output per
+/// window position 0, deci, 2*deci, ... that still holds `ntaps` samples, each equal
+/// to `filter()` at that position.
+fn filter_n_case(cx: &mut Ctxt, rng: &mut Rng) {
+    let ntaps = rng.range(1, 12);
+    let deci = rng.range(1, 8);
+    let len = ntaps + rng.range(0, 40);
+    let taps = gen_f32(rng, ntaps);
+    let data = gen_f32(rng, len);
+    let fir = Fir::new(&taps);
+    let replay = json!({"part": "filter_n", "ntaps": ntaps, "deci": deci, "len": len});
+    let want: Vec<f32> = (0..=len - ntaps).step_by(deci).map(|i| fir.filter(&data[i..])).collect();
+    let got = match catch(|| fir.filter_n(&data, deci)) {
+        Ok(g) => g,
+        Err(p) => return cx.fail("C11|Fir::filter_n|panic", format!("{p}; ntaps {ntaps} deci {deci} len {len}"), replay),
+    };
+    cx.rep.count("filter_n_outputs_checked", got.len() as u64);
+    if got.len() != want.len() {
+        return cx.fail("C11|Fir::filter_n|output-count", format!("{} outputs, {} window positions (ntaps {ntaps}, deci {deci}, len {len})", got.len(), want.len()), replay);
+    }
+    if got.iter().zip(&want).any(|(a, b)| a.to_bits() != b.to_bits()) {
+        return cx.fail("C11|Fir::filter_n|differs-from-filter", format!("ntaps {ntaps} deci {deci} len {len}"), replay);
+    }
+    let mut out = vec![0f32; want.len()];
+    if let Err(p) = catch(|| fir.filter_n_inplace(&data, deci, &mut out)) {
+        return cx.fail("C11|Fir::filter_n_inplace|panic", format!("{p}; ntaps {ntaps} deci {deci} len {len}"), replay);
+    }
+    if out.iter().zip(&want).any(|(a, b)| a.to_bits() != b.to_bits()) {
+        cx.fail("C11|Fir::filter_n_inplace|differs-from-filter", format!("ntaps {ntaps} deci {deci} len {len}"), replay);
+    }
+}
+
 fn fir_case(cx: &mut Ctxt, rng: &mut Rng) {
     let ntaps = match rng.below(4) {
         0 => rng.range(1, 4),
@@ -618,7 +650,7 @@ fn lowpass_case(cx: &mut Ctxt, rng: &mut Rng) {
 
 pub fn main(opts: &Opts) -> Report {
     let mut rep = Report::new("C11");
-    rep.rule = "seeded parameter draws: FirFilter (taps 1..200, decimation 1..8, random/impulse/step/sinusoid inputs, one-shot and drip-fed) against an f64 sliding dot product with bound 2*n*u*sum|a_i b_i|; FftFilter/FftFilterFloat against f64 linear convolution with zero pre-history (bound 32*u*log2(N)*|x_block|*|h|) and against FirFilter shifted by ntaps-1; Fir::filter_float for every length 0..70 in this build's kernel (scalar / AVX / std::simd); SinglePoleIirFilter, IirFilter (fill, clamped) and FastFM bit-exact against their recurrences; Hilbert (delay, dot product, antisymmetric taps, envelope); QuadratureDemod identity and tone frequency; low_pass/low_pass_complex symmetry and unit DC gain for every window type; distinct = (part, parameters)".into();
+    rep.rule = "seeded parameter draws: FirFilter (taps 1..200, decimation 1..8, random/impulse/step/sinusoid inputs, one-shot and drip-fed) against an f64 sliding dot product with bound 2*n*u*sum|a_i b_i|; FftFilter/FftFilterFloat against f64 linear convolution with zero pre-history (bound 32*u*log2(N)*|x_block|*|h|) and against FirFilter shifted by ntaps-1; Fir::filter_float for every length 0..70 in this build's kernel (scalar / AVX / std::simd); Fir::filter_n and filter_n_inplace (1-12 taps, decimation 1-8, 0-40 extra samples): one output per window position, each bit-equal to filter() there; SinglePoleIirFilter, IirFilter (fill, clamped) and FastFM bit-exact against their recurrences; Hilbert (delay, dot product, antisymmetric taps, envelope); QuadratureDemod identity and tone frequency; low_pass/low_pass_complex symmetry and unit DC gain for every window type; distinct = (part, parameters)".into();
     rep.assume("tolerances are derived forward error bounds of the f32 computation with u = 2^-24, not tuned constants");
     rec::install(true);
     let mut cx = Ctxt { rep: &mut rep, fails: Vec::new() };
@@ -667,6 +699,9 @@ pub fn main(opts: &Opts) -> Report {
                 if cx.rep.want_sample() {
                     let name = ["FirFilter vs f64 sliding dot product", "FftFilter(Float) vs f64 linear convolution", "IIR recurrences", "Hilbert", "QuadratureDemod/FastFM", "low_pass taps"][part as usize];
                     cx.rep.sample(json!({"part": name, "case_seed": h.to_string(), "kernel_build": build_kind()}));
+                }
+                if part == 0 {
+                    filter_n_case(&mut cx, &mut Rng::new(h ^ 0xF17));
                 }
                 match part {
                     0 => fir_case(&mut cx, &mut r2),
